@@ -81,7 +81,7 @@ fn materialise(base: &Path, c: &Case) -> (PathBuf, Vec<String>) {
             // let binding, a lambda body and the branch of an if (the classic compiler never looks at what nobody calls
             // and has no let or lambda)
             let m = nested_mod(&f[1], k);
-            let pos = if c.sigil.is_empty() { [1usize, 2, 4, 8][(c.id + k) % 4] } else { (c.id + k) % 9 };
+            let pos = if c.sigil.is_empty() { [1usize, 2, 4, 8][(c.id + k) % 4] } else { (c.id + k) % 11 };
             match pos {
                 0 => mains.push(form_text(f, k)),
                 1 => {
@@ -100,7 +100,15 @@ fn materialise(base: &Path, c: &Case) -> (PathBuf, Vec<String>) {
                     mains.push(format!("(defun nest{k} (Y) (if Y (a {m} (list Y)) 0))"));
                     extra.push_str(&format!(" (nest{k} X)"));
                 }
-                _ => extra.push_str(&format!(" (if X (a {m} (list X)) 0)")),
+                8 => extra.push_str(&format!(" (if X (a {m} (list X)) 0)")),
+                // the forms themselves in the body of a macro (a macro is a program of its own), used or not
+                _ => {
+                    let inner: Vec<String> = f[1].as_array().unwrap().iter().enumerate().map(|(j, g)| form_text(g, k * 100 + j)).collect();
+                    mains.push(format!("(defmacro nmac{k} (A) {} (qq (+ (unquote A) 0)))", inner.join(" ")));
+                    if pos == 10 {
+                        extra.push_str(&format!(" (nmac{k} X)"));
+                    }
+                }
             }
         } else {
             mains.push(form_text(f, k));
